@@ -63,7 +63,8 @@ type Lexer struct {
 // New creates a new lexical analyzer for the EBNF language.
 // EBNF (Extended Backus-Naur Form) is used to define context-free grammars and their corresponding languages.
 func New(filename string, src io.Reader) (*Lexer, error) {
-	in, err := input.New(filename, src, bufferSize)
+	// The input is terminated with a newline, so the end of input never falls inside or right after the last token.
+	in, err := input.New(filename, &source{r: io.MultiReader(src, strings.NewReader("\n"))}, bufferSize)
 	if err != nil {
 		return nil, err
 	}
@@ -71,6 +72,22 @@ func New(filename string, src io.Reader) (*Lexer, error) {
 	return &Lexer{
 		in: in,
 	}, nil
+}
+
+// source adapts a reader to what the two-buffer input expects:
+// every read fills the given block completely unless the input has ended,
+// since the input buffer takes a short read for the end of input.
+type source struct {
+	r io.Reader
+}
+
+func (s *source) Read(p []byte) (int, error) {
+	n, err := io.ReadFull(s.r, p)
+	if n > 0 && (err == io.EOF || err == io.ErrUnexpectedEOF) {
+		err = nil
+	}
+
+	return n, err
 }
 
 // NextToken scans the input stream until it recognizes a valid token, which it then returns.
